@@ -33,6 +33,8 @@ CLAIMED["C08"] = ("hook-trace invariant monitor: linear_cg driven directly on SP
                   "runtime monitoring: invariants over per-iteration hook traces of the real CG loop plus metamorphic pairs")
 CLAIMED["C09"] = ("invariant monitor: lanczos_tridiag driven directly on symmetric PSD matrices (full rank, rank deficient, repeated eigenvalues, identity multiples, mixed batches), every budget 1..n+2, supplied and random start vectors; Q^T Q = I, T symmetric tridiagonal, Q^T A Q = T, A Q - Q T supported in the last column, invariance at full Krylov dimension (dimension from an independent float64 Arnoldi), step bound from the lanczos.* hook events; consumers (lanczos roots, inverse roots, diagonalization) against the orthogonal compression onto the space they span",
                   "runtime monitoring: algebraic invariants of the returned Lanczos factors with hook-enforced step bound")
+CLAIMED["C10"] = ("hook-trace invariant monitor: pivoted_cholesky (on dense PSD families and on every PD operator class) with the pchol.iter events (pivot, pivot value, internal residual diagonal, permutation, error measure per step) checked against the densely recomputed residuals R_j: PSD residual, vanishing pivot rows, greedy argmax pivots, non-increasing trace, exactness at full rank, internal diagonal = diag(R_j), early stop only below tolerance, pivots a permutation; the (K + D) preconditioner closure / operator / log-determinant against L L^T + D",
+                  "runtime monitoring: per-step hook trace checked against dense residual recomputation")
 PENDING = {}
 def main():
     hooks_commits = []
